@@ -322,6 +322,18 @@ Theorem C15_response_eq_sync : forall p fx root jfuel cs resp,
   FutSpec.conforms root (ExecAsync.r_data resp) (ExecAsync.r_errors resp).
 Proof. exact response_eq_sync. Qed.
 
+(** The same for MUTATIONS ([JRunM], mirroring C02's [serial_loop] / [exec_sel_serial]): the root
+    fields are executed one after the other, each field's future waited for by the joint loop (LTS
+    rounds as the handler) before the next field starts, the rounds numbered consecutively; every
+    such joint run yields the all-synchronous data and conforming errors.  (Existence of a joint
+    run, proved for queries below, is not repeated for the serial path.) *)
+Theorem C15_response_eq_sync_mutation : forall p fx root jfuel cs resp,
+  FutProofs.resp_depth root < jfuel ->
+  JRunM p fx root jfuel cs resp ->
+  ExecAsync.r_data resp = ExecSync.sr_data (ExecSync.run_sync root) /\
+  FutSpec.conforms root (ExecAsync.r_data resp) (ExecAsync.r_errors resp).
+Proof. exact response_eq_sync_mutation. Qed.
+
 (** ... and the joint system does run to completion, every one of its steps being forced: for every
     plan without prefilled promises ([NoPrefill.nopre root]: true of every Go/Batch request, api-fu
     never sends before it has returned the promise) and every flat Go/Batch program with an item
@@ -423,6 +435,7 @@ Print Assumptions C15_no_leak.
 Print Assumptions C15_drains.
 Print Assumptions C15_no_leak_refuted_before_fix.
 Print Assumptions C15_response_eq_sync.
+Print Assumptions C15_response_eq_sync_mutation.
 Print Assumptions C15_joint_run_exists.
 Print Assumptions C15_response_eq_sync_go_batch.
 Print Assumptions C15_joint_round_forced.
